@@ -168,6 +168,12 @@ CORPUS["C06"] = [
     M("ozone floor applies from 50 km", (CPH, "        msk2 = z >= 100", "        msk2 = z >= 50")),
     B("grammage bands written with np.where", (CPH, "        X[mask1] = np.power(((z[mask1] - 44.34) / -11.861), (1 / 0.19))\n", "        X = np.where(mask1, np.power(((z - 44.34) / -11.861), (1 / 0.19)), X)\n")),
     B("middle band mask as a product of comparisons", (CPH, "        mask2 = np.logical_and(z >= 11, z < 25)", "        mask2 = (z >= 11) & ~(z >= 25)")),
+    M("ring limit without the +1", (CPH, "        jlim = np.floor(CradLim) + 1\n", "        jlim = np.floor(CradLim)\n")),
+    M("ring limit from the sine of the Cherenkov angle", (CPH, "        CradLim = DistStep * np.tan(thetaC, dtype=self.dtype)", "        CradLim = DistStep * np.sin(thetaC, dtype=self.dtype)")),
+    M("rings inside the limit are zeroed instead of those outside", (CPH, "        svtrm[~jmask[..., 1:]] = self.dtype(0)", "        svtrm[jmask[..., 1:]] = self.dtype(0)")),
+    M("ring at the limit is kept", (CPH, "        jmask = jjstep < jlim[..., None]", "        jmask = jjstep <= jlim[..., None]")),
+    B("ring mask written from the outside", (CPH, "        jmask = jjstep < jlim[..., None]\n", "        jmask = ~(jjstep >= jlim[..., None])\n")),
+    B("ring limit with the factors swapped", (CPH, "        CradLim = DistStep * np.tan(thetaC, dtype=self.dtype)", "        CradLim = np.tan(thetaC, dtype=self.dtype) * DistStep")),
     M("shower age from 2 t instead of 3 t", (CPH, "        s[mask] = self.dtype(3) * t[mask] / (t[mask] + self.dtype(2) * greisen_beta)", "        s[mask] = self.dtype(2) * t[mask] / (t[mask] + self.dtype(2) * greisen_beta)")),
     M("radiation length 37.15", (CPH, "        t[mask] = gramsum[mask] / self.dtype(36.66)", "        t[mask] = gramsum[mask] / self.dtype(37.15)")),
     M("track length without the square", (CPH, "        t4 = np.power(1 + self.dtype(1e-4 * s * eCthres), 2, dtype=self.dtype)", "        t4 = np.power(1 + self.dtype(1e-4 * s * eCthres), 1, dtype=self.dtype)")),
